@@ -24,6 +24,8 @@ func register(id string, needSSA bool, run func(*Ctx)) { props[id] = propDef{run
 
 func init() {
 	register("C08", true, checkC08)
+	register("C19", true, checkC19)
+	register("C14", true, checkC14)
 }
 
 func main() {
@@ -32,6 +34,7 @@ func main() {
 	repo := flag.String("repo", "/repo", "repository to analyse")
 	verif := flag.String("verif", "", "verif directory (default: parent of the binary's directory)")
 	out := flag.String("out", "", "directory for evidence and replay files (default <verif>/evidence)")
+	dump := flag.Bool("dump", false, "print every obligation")
 	ver := flag.Bool("version", false, "print version")
 	list := flag.Bool("list", false, "list properties with rules built")
 	flag.Parse()
@@ -65,7 +68,7 @@ func main() {
 	if *out == "" {
 		*out = filepath.Join(*verif, "evidence")
 	}
-	c := &Ctx{Out: *out, Prop: *prop, Tier: *tier, Seed: seed, Repo: *repo, Verif: *verif,
+	c := &Ctx{Dump: *dump, Out: *out, Prop: *prop, Tier: *tier, Seed: seed, Repo: *repo, Verif: *verif,
 		keyCount: map[string]int{}, notes: map[string]interface{}{}, t0: time.Now()}
 	defer func() {
 		if r := recover(); r != nil {
